@@ -33,7 +33,7 @@ partial def loop (h out : IO.FS.Stream) (w : W) : IO Unit := do
     loop h out w
   | "P" :: now :: acc :: con :: soe :: envs0 =>
     let hup := envs0.find? (·.startsWith "H")
-    let envs := envs0.filter (!·.startsWith "H")
+    let envs := envs0.filter (fun x => !x.startsWith "H" && !x.startsWith "W")
     let p : PassIn := { now := now.toNat!, acc := acc.toNat!, con := con.toNat!, soe := soe.toNat!, envs := envs.map parseEnv }
     let (w, lines) := match hup with
       | some h => hupPass w (h.drop 1).toNat! p
@@ -43,7 +43,7 @@ partial def loop (h out : IO.FS.Stream) (w : W) : IO Unit := do
   | "Q" :: rest =>
     -- a termination signal arrives while the daemon sleeps in `poll`, together with whatever the rest of the line makes ready
     let p : PassIn := match rest with
-      | now :: acc :: con :: soe :: envs => { now := now.toNat!, acc := acc.toNat!, con := con.toNat!, soe := soe.toNat!, envs := (envs.filter (!·.startsWith "H")).map parseEnv }
+      | now :: acc :: con :: soe :: envs => { now := now.toNat!, acc := acc.toNat!, con := con.toNat!, soe := soe.toNat!, envs := (envs.filter (fun x => !x.startsWith "H" && !x.startsWith "W")).map parseEnv }
       | _ => { now := 0, acc := 0, con := 0, soe := 0, envs := [] }
     for l in signalPass w p do out.putStrLn l
     out.putStrLn "O teardown"
